@@ -457,6 +457,9 @@ def _exp_ca(p):
         # relative to that result -- however small it is (an absolute tolerance would accept 0 for 3e-17)
         if val == 0:
             return "ok" if g[1] == 0 else f"WRONG-VALUE: {g[1]} expected 0"
+        if p.get("exact"):
+            # both operands written as integers, + - *: Python integer arithmetic, exact at any magnitude
+            return "ok" if g[1] == val else f"WRONG-VALUE: {g[1]} expected exactly {val}"
         return "ok" if abs(g[1] - val) <= Fraction(1, 2 ** 50) * abs(val) else f"WRONG-VALUE: {float(g[1])!r} expected {float(val)!r}"
 
     return exp, None
@@ -637,7 +640,15 @@ def instances(rng):
         c1, c2 = rng.choice(consts), rng.choice(consts)
         if op == "/" and Fraction(c2) == 0:
             c2 = "4"
-        yield Inst("CA" + op, "CA", f"{c1} {op} {c2}", "ca", {"op": op})
+        yield Inst("CA" + op, "CA", f"{c1} {op} {c2}", "ca", {"op": op, "exact": op != "/" and "." not in c1 + c2})
+    # products of integer literals beyond 2^53 / 2^63 / 2^64 are exact whatever their size (operands stay below 10^13:
+    # listing the moves of every rule on such a tree runs the factoring helper, which enumerates divisors up
+    # to sqrt(n), over each constant addend -- sums and differences of integers beyond 2^53 are out of reach here)
+    wide = ["94906267", "4294967297", "3037000500", "1000000007", "999999999989", "1234567890123", "3", "7", "2147483647"]
+    c1, c2 = rng.choice(wide[:6]), rng.choice(wide)
+    if rng.random() < 0.5:
+        c1, c2 = c2, c1
+    yield Inst("CA*", "CA", f"{c1} * {c2}", "ca", {"op": "*", "exact": True}, contexts=["{}", "{} + q", "q * ({})"])
     tiny = ["0.00000000000000001", "0.00000000000000002", "0.00000000000000004", "0.30000000000000004", "0.3", "0.0000001", "0.1", "0.2", "0.7", "1000000.5", "0.000000000000000000003"]
     for op in "+-":
         yield Inst("CA" + op, "CA", f"{rng.choice(tiny)} {op} {rng.choice(tiny)}", "ca", {"op": op}, contexts=["{}", "{} + q", "q * ({})", "({}) - q"])
@@ -721,7 +732,7 @@ def big_instances(rng):
     small = rng.choice(["3", "4", "2", "12"])
     pair = (big, small) if rng.random() < 0.5 else (small, big)
     yield Inst("DF", "DF", f"{pair[0]}{v}{e} + {pair[1]}{v}{e}", "df", contexts=["{}", "q + ({})", "({}) * q"])
-    yield Inst("CA*", "CA", f"{big.split('.')[0]} * {rng.choice(['1000003', '99999999977'])}", "ca", {"op": "*"}, contexts=["{}", "{} + q"])
+    yield Inst("CA*", "CA", f"{big.split('.')[0]} * {rng.choice(['1000003', '99999999977'])}", "ca", {"op": "*", "exact": True}, contexts=["{}", "{} + q"])
     yield Inst("CS+", "CS", f"{big}{v} + {small}", "cs", {"K": "Add"}, contexts=["{}", "({}) * q"])
     yield Inst("VM", "VM", f"{big.split('.')[0]}{v}^2 * {small}{v}^3", "vm", {"x": v, "e1": "^2", "e2": "^3"}, contexts=["{}", "q + ({})"])
 
